@@ -705,11 +705,11 @@ def run(ctx: Ctx) -> None:
 
     # ---- 2. spec -> code: every enumerated command through the real functions -----------------
     sh = ShLab(ctx)
-    n_sh = ctx.pick(25, 1500)
+    n_sh = ctx.pick(25, 400)
     sh_idx = set(rng.sample(range(len(cmd_cases)), min(n_sh, len(cmd_cases))))
     sh_runs = sh_printed = 0
     trace_batch: list = []
-    n_model_to_trace = ctx.pick(150, 3000)
+    n_model_to_trace = ctx.pick(150, 1500)
     tr_idx = set(rng.sample(range(len(cmd_cases)), min(n_model_to_trace, len(cmd_cases))))
     for i, c in enumerate(cmd_cases):
         exec_it = i in sh_idx
@@ -762,7 +762,7 @@ def run(ctx: Ctx) -> None:
     ctx.sample({"source": "tlc-exhaustive structure", "case": io_cases[len(io_cases) // 2]})
 
     # ---- 4. code -> spec: larger generated texts and structures --------------------------------
-    n_gen = ctx.pick(600, 12000)
+    n_gen = ctx.pick(600, 6000)
     for _ in range(n_gen):
         prefix = rng.choice(["EOF"] * 6 + ["END", "X_", "EOF1"])
         text = gen_text(rng, prefix)
@@ -779,7 +779,7 @@ def run(ctx: Ctx) -> None:
                           {"kind": "cmd", "text": text, "prefix": prefix, "source": "generated"})
         trace_batch.append(rec)
     first_gen_io = len(trace_batch)
-    for _ in range(ctx.pick(200, 3000)):
+    for _ in range(ctx.pick(200, 2000)):
         # one role per path: remote 2 is a staged file, a file used in place, or a staged directory;
         # local 6 / remote 8 a file or a directory; remote 7 copied from local 5 or written in place
         in_ids = [lid(K_STAGE, 3, 1), rng.choice([lid(K_STAGE, 4, 2), lid(K_STAGE, 2, 2), lid(K_SDIR, 4, 2)])]
@@ -803,7 +803,7 @@ def run(ctx: Ctx) -> None:
 
     # ---- 5. real sh on generated texts, real Scheduler on script() ----------------------------
     gen_cmds = [c for c in trace_batch if c["kind"] == "cmd" and c.get("_text") is not None and c["_prefix"] == "EOF"]
-    for c in rng.sample(gen_cmds, min(ctx.pick(25, 600), len(gen_cmds))):
+    for c in rng.sample(gen_cmds, min(ctx.pick(25, 300), len(gen_cmds))):
         text = "#!/bin/cat\n" + c["_text"].lstrip("\n ")      # printed, never interpreted
         prep, eof, wrapped, _r, _rw = cc.real(text, "EOF")
         shell = rng.choice(sh.shells)
@@ -821,7 +821,7 @@ def run(ctx: Ctx) -> None:
     e2e_in_sets = [[], [s31], [s42], [s31, s42], [s42, s31], [s31, s22], [d42], [s31, d42]]
     e2e_leaf_out = [lid(K_STDOUT, 0, 0), lid(K_STAGE, 5, 7), lid(K_STAGE, 6, 8), lid(K_FILE, 0, 9), lid(K_PLAIN, 0, 1),
                     lid(K_SDIR, 6, 8)]
-    n_e2e = ctx.pick(16, 240)
+    n_e2e = ctx.pick(16, 160)
     e2e_done = 0
     for k in range(n_e2e):
         ins = {"k": "list", "t": 0, "y": [], "x": [leaf(i) for i in rng.choice(e2e_in_sets)]}
